@@ -559,11 +559,11 @@ def cli_strategy(draw, maxwin=20):
     o = {}
     if draw(st.booleans()):
         o["printf"] = draw(st.sampled_from(["{id} {start} {end}", "{start}\\t{end}", "{id}:{duration}|{start}",
-                                            "{timestamp} {id} {end}", "x{id}\\n{duration}"]))
+                                            "{timestamp} {id} {end}", "x{id}\\n{duration}", "d\u00e9tection {id} \u2192 {start}", "{id}\u00a0{end} \u20ac"]))
     if draw(st.booleans()):
         o["time_format"] = draw(st.sampled_from(["%S", "%I", "%h:%m:%s.%i", "%i/%s/%m/%h", "%s.%i (%h h %m m)", "%h:%m:%s.%q"]))
     if draw(st.integers(0, 3)) == 0:
-        o["M"] = [draw(st.integers(0, N + 3)), draw(st.sampled_from([0, 0.25, 0.75]))]
+        o["M"] = [draw(st.integers(0, N + 3)), draw(st.sampled_from([0, 0.25, 0.5, 0.75]))]
     o["L"] = draw(st.booleans())
     o["f"] = draw(st.booleans())
     o["explicit_fmt"] = draw(st.booleans())
